@@ -38,6 +38,12 @@ class Ctx:
         self.p = None
         self.world = None
         self.counters = {}
+        self.pending = []
+
+    def report(self, signature, detail=None):
+        """record a violation and go on (the first one per signature is kept)"""
+        if not any(v.signature == signature for v in self.pending):
+            self.pending.append(Violation(signature, detail))
 
     def count(self, name, n=1):
         self.counters[name] = self.counters.get(name, 0) + n
@@ -143,12 +149,17 @@ def _expand(task):
                     d0 = sh.depth
                     sh.snap()
                     try:
+                        ctx.pending = []
                         m2 = check.step(ctx, copy.deepcopy(model), a)
                         out["transitions"] += 1
                         check.probe(ctx, m2)
                         k2 = check.key(ctx, m2)
                         out["succ"].append((a, k2))
+                        for v in ctx.pending:
+                            out["viol"].append(_viol(v, history, a))
                     except Violation as v:
+                        for pv in ctx.pending:
+                            out["viol"].append(_viol(pv, history, a))
                         out["viol"].append(_viol(v, history, a))
                     except Died as d:
                         if d.info.get("eof"):
@@ -200,13 +211,19 @@ def _dfs_task(task):
             d0 = sh.depth
             sh.snap()
             try:
+                ctx.pending = []
                 m2 = check.step(ctx, copy.deepcopy(model), a)
                 out["transitions"] += 1
                 check.probe(ctx, m2)
                 out["keys"].add(hash(check.key(ctx, m2)))
+                for v in ctx.pending:
+                    if len(out["viol"]) < 200:
+                        out["viol"].append(_viol(v, hist, a))
                 rec(m2, hist + [a], rem - 1)
             except Violation as v:
-                if len(out["viol"]) < 50:
+                if len(out["viol"]) < 200:
+                    for pv in ctx.pending:
+                        out["viol"].append(_viol(pv, hist, a))
                     out["viol"].append(_viol(v, hist, a))
             except Died as d:
                 if d.info.get("eof"):
@@ -397,9 +414,14 @@ def _expand_root():
         sh.snap()
         try:
             m = copy.deepcopy(_W["model0"])
+            ctx.pending = []
             check.probe(ctx, m)
             out["key"] = check.key(ctx, m)
+            for v in ctx.pending:
+                out["viol"].append(_viol(v, [], None))
         except Violation as v:
+            for pv in ctx.pending:
+                out["viol"].append(_viol(pv, [], None))
             out["viol"].append(_viol(v, [], None))
             out["key"] = check.key(ctx, copy.deepcopy(_W["model0"]))
         finally:
@@ -465,6 +487,7 @@ def _replay(v):
     check = _W["check"]
     sh = ctx.sh
     a = None
+    ctx.pending = []
     try:
         sh.snap()
         try:
@@ -481,20 +504,20 @@ def _replay(v):
         finally:
             sh.unwind(0)
     except Violation as e:
-        return e.signature
+        return [x.signature for x in ctx.pending] + [e.signature]
     except Died as d:
         if d.info.get("eof"):
             _fresh_shell()
-            return "died|top|%r" % (d.info,)
-        return "died|%s" % check.died_sig(a, d)
-    return None
+            return [x.signature for x in ctx.pending] + ["died|top|%r" % (d.info,)]
+        return [x.signature for x in ctx.pending] + ["died|%s" % check.died_sig(a, d)]
+    return [x.signature for x in ctx.pending]
 
 
 def confirm_violations(ex, report):
     """replay every violation once from scratch; reproduced ones go to the report, others are harness errors"""
     for sig, v in sorted(ex.violations.items()):
         seen = ex.pool.apply(_replay, (v,))
-        if seen == sig:
+        if sig in seen:
             v = dict(v)
             v["variant"] = ex.variant
             v["store"] = ex.store
